@@ -34,7 +34,7 @@ def tla_value(v) -> str:
 def make_cfg(constants: dict, spec="Spec", invariants=(), properties=(), constraint=None,
              action_constraint=None, view=None, postcondition=None, init=None, next_=None,
              deadlock=False) -> str:
-    lines = ["CONSTANTS"]
+    lines = ["CONSTANTS"] if constants else []
     for k, v in constants.items():
         if isinstance(v, str) and v.startswith("<-"):
             lines.append(f" {k} <- {v[2:].strip()}")      # substitution by a definition of the module
